@@ -98,6 +98,10 @@ class EOPLoader(ABC):
         Raises:
             TypeError: If `eop_date` is not a valid type.
         """
+        if not self._is_loaded:
+            # load first, so that the lazy load of a later look-up cannot overwrite the value set here
+            self.load()
+
         if isinstance(eop_date, datetime.datetime):
             self._eop_data[eop_date.date()] = eops
         elif isinstance(eop_date, datetime.date):
